@@ -1,0 +1,268 @@
+//! Verification hooks (feature `verif-hooks`).
+//!
+//! This module is compiled only with the `verif-hooks` feature. It lets an external harness
+//! observe, in program order, every event the broker dequeues, every deferred work item it pops,
+//! every message it sends (and whether the send succeeded) and, at each point where the deferred
+//! work lists are empty, a dump of the broker's internal maps. Nothing in here changes the
+//! behaviour of the broker.
+//!
+//! The sink is thread-local: a harness runs broker, connections and clients on one thread and
+//! installs a sink before polling them.
+
+use aldrin_core::message::{CallFunctionResult, Message};
+use aldrin_core::{
+    BusListenerCookie, BusListenerFilter, BusListenerScope, ChannelCookie, ObjectCookie, ObjectId,
+    ObjectUuid, ProtocolVersion, ServiceCookie, ServiceId, ServiceUuid, TypeId,
+};
+use std::cell::RefCell;
+
+/// One observation.
+#[derive(Debug, Clone)]
+pub enum Record {
+    /// `ConnectionEvent::NewConnection` was dequeued.
+    NewConn {
+        /// Connection id.
+        conn: usize,
+        /// Negotiated version.
+        version: ProtocolVersion,
+    },
+
+    /// `ConnectionEvent::ConnectionShutdown` was dequeued.
+    ConnShutdown {
+        /// Connection id.
+        conn: usize,
+    },
+
+    /// `ConnectionEvent::Message` was dequeued.
+    Msg {
+        /// Connection id.
+        conn: usize,
+        /// The message.
+        msg: Message,
+    },
+
+    /// `ConnectionEvent::ShutdownBroker` was dequeued.
+    ShutdownBroker,
+
+    /// `ConnectionEvent::ShutdownIdleBroker` was dequeued.
+    ShutdownIdle,
+
+    /// `ConnectionEvent::ShutdownConnection` was dequeued.
+    ShutdownConn {
+        /// Connection id.
+        conn: usize,
+    },
+
+    /// Some other event (e.g. statistics) was dequeued.
+    Other,
+
+    /// `ConnectionState::send` was called.
+    Send {
+        /// Connection id of the recipient.
+        conn: usize,
+        /// Whether the message was queued successfully.
+        ok: bool,
+        /// The message.
+        msg: Message,
+        /// Version of the originator of the message's value, if any.
+        from: Option<ProtocolVersion>,
+    },
+
+    /// A deferred work item was popped.
+    Work(Work),
+
+    /// The deferred work lists are empty.
+    Idle(Box<Dump>),
+
+    /// The run loop was left.
+    Stop,
+}
+
+/// A deferred work item.
+#[derive(Debug, Clone)]
+#[allow(missing_docs)]
+pub enum Work {
+    RemoveConn {
+        conn: usize,
+        send_shutdown: bool,
+    },
+    UnsubscribeEvent {
+        conn: usize,
+        service: ServiceCookie,
+        event: u32,
+    },
+    UnsubscribeAllEvents {
+        conn: usize,
+        service: ServiceCookie,
+    },
+    ServiceDestroyed {
+        conn: usize,
+        service: ServiceCookie,
+    },
+    RemoveFunctionCall {
+        serial: u32,
+        conn: usize,
+        result: CallFunctionResult,
+    },
+    CreateObject(ObjectId),
+    CreateService(ServiceId),
+    DestroyService(ServiceId),
+    DestroyObject(ObjectId),
+    AbortFunctionCall {
+        serial: u32,
+        callee: usize,
+    },
+}
+
+/// Dump of the broker's internal state.
+#[derive(Debug, Clone, Default)]
+#[allow(missing_docs)]
+pub struct Dump {
+    pub conns: Vec<DumpConn>,
+    pub obj_uuids: Vec<(ObjectCookie, ObjectUuid)>,
+    pub objs: Vec<DumpObject>,
+    pub svc_uuids: Vec<DumpServiceIndex>,
+    pub svcs: Vec<DumpService>,
+    pub calls: Vec<DumpCall>,
+    pub channels: Vec<DumpChannel>,
+    pub bus_listeners: Vec<DumpBusListener>,
+    pub introspection: Vec<DumpIntrospection>,
+    pub query_introspection: Vec<(u32, TypeId)>,
+    pub shutdown_now: bool,
+    pub shutdown_idle: bool,
+    pub num_connections: usize,
+    pub num_objects: usize,
+    pub num_services: usize,
+    pub num_channels: usize,
+    pub num_bus_listeners: usize,
+    pub num_introspections: usize,
+}
+
+#[derive(Debug, Clone)]
+#[allow(missing_docs)]
+pub struct DumpConn {
+    pub id: usize,
+    pub version: ProtocolVersion,
+    pub objects: Vec<ObjectCookie>,
+    pub events: Vec<(ServiceCookie, Vec<u32>)>,
+    pub all_events: Vec<ServiceCookie>,
+    pub subscriptions: Vec<ServiceCookie>,
+    pub senders: Vec<ChannelCookie>,
+    pub receivers: Vec<ChannelCookie>,
+    pub bus_listeners: Vec<BusListenerCookie>,
+    /// caller serial, callee serial, callee connection
+    pub calls: Vec<(u32, u32, usize)>,
+}
+
+#[derive(Debug, Clone)]
+#[allow(missing_docs)]
+pub struct DumpObject {
+    pub uuid: ObjectUuid,
+    pub conn: usize,
+    pub cookie: ObjectCookie,
+    pub services: Vec<ServiceCookie>,
+}
+
+#[derive(Debug, Clone)]
+#[allow(missing_docs)]
+pub struct DumpServiceIndex {
+    pub cookie: ServiceCookie,
+    pub object: ObjectId,
+    pub uuid: ServiceUuid,
+    pub version: u32,
+    pub type_id: Option<TypeId>,
+    pub subscribe_all: Option<bool>,
+}
+
+#[derive(Debug, Clone)]
+#[allow(missing_docs)]
+pub struct DumpService {
+    pub object_uuid: ObjectUuid,
+    pub uuid: ServiceUuid,
+    pub cookie: ServiceCookie,
+    pub object_cookie: ObjectCookie,
+    pub function_calls: Vec<u32>,
+    pub events: Vec<(u32, Vec<usize>)>,
+    pub all_events: Vec<usize>,
+    pub subscriptions: Vec<usize>,
+}
+
+#[derive(Debug, Clone)]
+#[allow(missing_docs)]
+pub struct DumpCall {
+    pub serial: u32,
+    pub caller_serial: u32,
+    pub caller: usize,
+    pub callee_obj: ObjectUuid,
+    pub callee_svc: ServiceUuid,
+    pub aborted: bool,
+}
+
+/// State of a channel end.
+#[derive(Debug, Clone, Copy, PartialEq, Eq)]
+#[allow(missing_docs)]
+pub enum DumpChannelEnd {
+    Unclaimed,
+    Claimed { owner: usize, capacity: u32 },
+    Closed,
+}
+
+#[derive(Debug, Clone)]
+#[allow(missing_docs)]
+pub struct DumpChannel {
+    pub cookie: ChannelCookie,
+    pub sender: DumpChannelEnd,
+    pub receiver: DumpChannelEnd,
+}
+
+#[derive(Debug, Clone)]
+#[allow(missing_docs)]
+pub struct DumpBusListener {
+    pub cookie: BusListenerCookie,
+    pub conn: usize,
+    pub filters: Vec<BusListenerFilter>,
+    pub scope: Option<BusListenerScope>,
+    pub matches_all_objects: bool,
+    pub matches_specific_services: bool,
+}
+
+#[derive(Debug, Clone)]
+#[allow(missing_docs)]
+pub struct DumpIntrospection {
+    pub type_id: TypeId,
+    pub conns: Vec<usize>,
+    pub index_ok: bool,
+    pub cached: bool,
+    pub queried: Option<(usize, u32)>,
+    pub pending: Vec<(usize, u32)>,
+}
+
+type Sink = Box<dyn FnMut(Record)>;
+
+thread_local! {
+    static SINK: RefCell<Option<Sink>> = const { RefCell::new(None) };
+}
+
+/// Installs (or removes) the sink of the current thread and returns the previous one.
+pub fn set_sink(sink: Option<Box<dyn FnMut(Record)>>) -> Option<Box<dyn FnMut(Record)>> {
+    SINK.with(|s| std::mem::replace(&mut *s.borrow_mut(), sink))
+}
+
+/// Returns `true` if a sink is installed on the current thread.
+pub fn enabled() -> bool {
+    SINK.with(|s| s.borrow().is_some())
+}
+
+pub(crate) fn emit(rec: Record) {
+    SINK.with(|s| {
+        if let Some(sink) = s.borrow_mut().as_mut() {
+            sink(rec);
+        }
+    });
+}
+
+pub(crate) fn emit_with(f: impl FnOnce() -> Record) {
+    if enabled() {
+        emit(f());
+    }
+}
